@@ -47,6 +47,7 @@ type Result struct {
 	Insts       int
 	Size        int
 	GoalSkolems []SkInfo
+	Weak        bool // ground stage sat on an instantiated query with quantifiers whose quantified stage was inconclusive
 }
 
 var interpreted = map[string]bool{
@@ -217,8 +218,55 @@ func SplitGoal(g *sx.T) []*sx.T {
 			out = append(out, sx.List(g.L[0], g.L[1], x))
 		}
 		return out
+	case "exists":
+		if w := witnessByUnification(g); w != nil {
+			return SplitGoal(w)
+		}
 	}
 	return []*sx.T{g}
+}
+
+// witnessByUnification: a goal (exists (x..) (and .. (= (ev_f a..) (ev_f x..)) ..)) whose bound variables are all
+// determined by equations between two applications of the same ghost-event constructor is replaced by its body at that
+// witness (proving the instance proves the existential; nothing is lost but completeness if another witness was meant).
+func witnessByUnification(g *sx.T) *sx.T {
+	if len(g.L) != 3 {
+		return nil
+	}
+	vars := map[string]bool{}
+	for _, b := range g.L[1].L {
+		if len(b.L) == 2 && b.L[0].IsAtom() {
+			vars[b.L[0].A] = true
+		}
+	}
+	body, _ := stripBang(g.L[2])
+	var conj []*sx.T
+	if body.Head() == "and" {
+		conj = body.L[1:]
+	} else {
+		conj = []*sx.T{body}
+	}
+	env := map[string]*sx.T{}
+	for _, c := range conj {
+		if c.Head() != "=" || len(c.L) != 3 {
+			continue
+		}
+		a, b := c.L[1], c.L[2]
+		if a.IsAtom() || b.IsAtom() || a.Head() != b.Head() || !strings.HasPrefix(a.Head(), "ev_") || len(a.L) != len(b.L) {
+			continue
+		}
+		if e := match(b, a, vars, env); e != nil {
+			env = e
+		} else if e := match(a, b, vars, env); e != nil {
+			env = e
+		}
+	}
+	for v := range vars {
+		if _, ok := env[v]; !ok {
+			return nil
+		}
+	}
+	return sx.Subst(body, env)
 }
 
 // instantiation ---------------------------------------------------------------
@@ -722,6 +770,7 @@ func Check(q *Query, opt Options) Result {
 	if st == "sat" {
 		r.Model = parseValues(groundRaw)
 		r.GoalSkolems = p.goalSk
+		r.Weak = len(p.qs) > 0 // the model satisfies only the instances the engine chose, not the quantified hypotheses
 	}
 	return r
 }
